@@ -140,11 +140,11 @@ fn one_sequence(seed: u64, idx: u64, thorough: bool, rep: &mut Report) {
     let mut rng = Rng::derive(seed, 17, idx);
     let d0 = *rng.pick(&DISTS);
     let d1 = if rng.chance(1, 3) { *rng.pick(&DISTS) } else { d0 };
-    let big = rng.chance(if thorough { 1 } else { 1 }, if thorough { 3 } else { 6 });
-    let n0 = start_len(&mut rng, big);
+    let big = !crate::util::tiny() && rng.chance(if thorough { 1 } else { 1 }, if thorough { 3 } else { 6 });
+    let n0 = if crate::util::tiny() { rng.range(0, 40) } else { start_len(&mut rng, big) };
     let init: Vec<u8> = (0..n0).map(|i| draw(&mut rng, d0, i)).collect();
     let mix = rng.below(4); // 0 roll-only, 1 push-heavy, 2 mixed, 3 push-only growth
-    let budget: usize = if big { rng.range(70_000, 210_000) } else { rng.range(200, 24_000) };
+    let budget: usize = if crate::util::tiny() { rng.range(30, 120) } else if big { rng.range(70_000, 210_000) } else { rng.range(200, 24_000) };
     let ctxv = json!({"seed": seed, "seq": idx, "start_len": n0, "dist0": format!("{d0:?}"), "dist1": format!("{d1:?}"), "mix": mix});
     let r = guarded(|| {
         let mut rep_local = Report::default();
@@ -268,6 +268,8 @@ fn exhaustive_corner(rep: &mut Report) {
 pub fn run(seed: u64, thorough: bool, cases: Option<u64>) -> Report {
     let n = cases.unwrap_or(if thorough { 5000 } else { 320 });
     let mut rep = par_cases(n, |i, r| one_sequence(seed, i, thorough, r));
-    exhaustive_corner(&mut rep);
+    if !crate::util::tiny() {
+        exhaustive_corner(&mut rep);
+    }
     rep
 }
